@@ -18,7 +18,7 @@ PROPERTY = "C13"
 META = dict(
     explanation="Positions and time stamps are symbols, so a wrong interval, a wrong frame's time stamp or a velocity written into "
                 "another junction's rows is a different term, not a small numerical deviation.",
-    bounds=dict(series="3 frames (4 thorough)", tissues="T3 (K3 thorough)", renumberings="identity, reversal, offset with gaps, a derangement",
+    bounds=dict(series="3 frames (4 thorough)", tissues="T3 (K4-n0 thorough; K3 with adimensional velocities was not decided within 60 s)", renumberings="identity, reversal, offset with gaps, a derangement",
                 options="b_matrix none/velocity, adimensional_velocity on/off, velocity_normalization symbolic"),
     outside=["series longer than 4 frames", "accelerations", "the tracking search (C12)"],
     assumptions=["builtins min/max on symbols become If-terms (bounding-box test of create_mapping)", "tangent stub (irrelevant for the right-hand side)"],
@@ -162,7 +162,7 @@ def jobs(tier):
     js = []
     quick = tier == "quick"
     combos = [("id", "rev", "gap"), ("der", "id", "rev")] if quick else [("id", "id", "id"), ("id", "rev", "gap"), ("der", "id", "rev"), ("gap", "der", "der")]
-    for topo in (("T3",) if quick else ("T3", "K3")):
+    for topo in (("T3",) if quick else ("T3", "K4-n0")):
         for perms in combos:
             for lost in (None, "P1"):
                 js.append(Job(f"velocity-{topo}-{'-'.join(perms)}-lost={lost}", "c13:velocity", dict(topo=topo, perms=list(perms), lost=lost),
